@@ -7,7 +7,10 @@ package gohlslib
 
 import (
 	"encoding/json"
+	"errors"
 	"fmt"
+	"github.com/bluenviron/gohlslib/v2/pkg/storage"
+	"io"
 	"os"
 	"path/filepath"
 	"strings"
@@ -160,6 +163,8 @@ func (ws *wordState) unit(s sym) wunit {
 			u.Params = 2
 		case "P":
 			u.RA, u.Params = true, 2
+		case "Q": // the other parameter set in an access unit of its own (no picture)
+			u.Params, u.NoSlice = 2, true
 		}
 		return u
 	}
@@ -328,6 +333,27 @@ func e1RunWordInner(sc e1Scen, word []sym, scratch string, props map[string]bool
 	}
 	rotations := 0
 	for i, s := range word {
+		if sc.Mode == "partfault" {
+			// environment fault: from write number FaultAt on the storage of the open part of the leading stream refuses
+			// writes (a full disk), so the Write that completes that part fails in the middle of the part rotation
+			if i >= sc.FaultAt && !r.faulted {
+				if np := r.mi.m.leadingStream.nextPart; np != nil {
+					if _, already := np.storage.(failingPart); !already {
+						np.storage = failingPart{np.storage}
+					}
+				}
+			}
+			ok := r.apply(ws.unit(s))
+			if !ok {
+				if !strings.Contains(r.writeErr, "injected") {
+					r.add("ALL", "write-error", "write %d (%s) failed: %s", r.writeErrAt, s, r.writeErr)
+					return r, i, nil
+				}
+				r.faulted = true
+				break // the word ends with the failed Write (what later writes do is not this mode's subject)
+			}
+			continue
+		}
 		if sc.Mode == "fault" {
 			// environment fault: the file of the next segment cannot be created at rotation number FaultAt
 			u := ws.peek(s)
@@ -388,6 +414,20 @@ func e1RunWordInner(sc e1Scen, word []sym, scratch string, props map[string]bool
 	}
 	return r, -1, nil
 }
+
+// failingPart is a storage.Part whose writer fails (injected fault of the partfault mode).
+type failingPart struct{ storage.Part }
+
+type failingWriter struct{}
+
+func (failingWriter) Write([]byte) (int, error) {
+	return 0, errors.New("injected: no space left on device")
+}
+func (failingWriter) Seek(int64, int) (int64, error) {
+	return 0, errors.New("injected: no space left on device")
+}
+
+func (failingPart) Writer() io.WriteSeeker { return failingWriter{} }
 
 type e1Replay struct {
 	Scen e1Scen `json:"scen"`
@@ -548,7 +588,7 @@ func e1Explore(c *vh.Ctx, sc e1Scen) {
 				}
 			}
 		}
-	case "long", "fault":
+	case "long", "fault", "partfault":
 		word := make([]sym, sc.Len)
 		for i := range word {
 			word[i] = sc.Alpha[i%len(sc.Alpha)]
